@@ -319,6 +319,7 @@ fn main() {
     ctx.assume("the three-step Receiver::poll (load, register, load) is atomic in the enumerated tiers; its interleavings with votes are only sampled by the threads tier");
     ctx.assume("'the runtime stops' is observed as the Receiver future becoming ready (the runtimes select on it); 'task disappears' is observed as dropping its Voter");
     ctx.assume("dl-runtime: the real Value/MapDownlinkRuntime polled by the harness on a paused clock (C07's dlrt engine) with a legal remote lane; histories: initial consumers, they stop listening / detach, the clock passes empty_timeout (read task votes; the write side is often kept occupied by a consumer that only stopped listening), late consumers attach (mostly without SYNC), the write side becomes idle, the clock passes empty_timeout again; no op stops the runtime or closes the link, so the runtime future can only finish by the unanimous inactivity vote; non-trivial = a consumer attached after the read side had been without listeners for more than empty_timeout on a linked downlink");
+    ctx.assume("agent-runtime: the real AgentRouteTask (read + write + HTTP task + 3-party coordinator) with a real AgentModel agent (2 value lanes, a control lane whose command schedules a lane set on an agent timer), polled by the harness on a paused clock advanced 1 ms at a time (everything delivered and the system idle after each ms, no response read unless the history says so); 1-2 remotes attached at 0 and never detached, inactive_timeout 20/40 ms, histories of <= 8 timed actions at instants around multiples of the timeout: agent-timer lane events, commands/link/sync for known and for unknown lanes, HTTP requests, remote reads; nothing in a history stops the agent, so a stop is an inactivity stop; law: at the stop instant t no task had own activity (read: an envelope completely written and consumed; write: a lane event of the agent; http: a request) strictly inside (t - inactive_timeout, t); non-trivial = some task had been idle for a whole timeout (could have voted) and some activity followed before the stop");
     ctx.assume("a party whose vote was withdrawn and then disappears counts as a task that 'disappears without voting' (it has no outstanding vote)");
 
     let (d2, d3) = ctx.pick((10u8, 8u8), (13u8, 11u8));
@@ -351,7 +352,7 @@ fn main() {
     let n = ctx.pick(1_000_000, 30_000_000);
     ctx.prop("dl-runtime", n, dlrt::strategy, dlrt::check);
     // the clause against the real agent runtime (read task + write task + HTTP task + coordinator) with a real agent
-    let n = ctx.pick(150_000, 5_000_000);
+    let n = ctx.pick(200_000, 10_000_000);
     ctx.prop("agent-runtime", n, agentrt::strategy, agentrt::check);
     ctx.finish();
 }
